@@ -210,7 +210,7 @@ func (s *Session) verifyKey(key string, con *Contract) *Unit {
 	u.Vacuity = &Obligation{Name: u.Short + ":vacuity", Script: preambleFor(body) + body, Goal: "(preamble+declarations+requires satisfiable)"}
 	// anchors that never matched
 	for text := range con.At {
-		if !con.atUsed[text] {
+		if !con.atUsed[text] && !con.OptAt[text] {
 			u.Obls = append(u.Obls, &Obligation{Name: u.Short + ":anchor:" + text, Goal: "anchored call exists in the function", Result: SolveResult{Status: "unknown", Model: "no call with this text in " + key}})
 		}
 	}
